@@ -709,6 +709,16 @@ double Integrate_MC_Miser(std::function<double(std::vector<double>&, const doubl
 
 double Integrate_MC(std::function<double(std::vector<double>&, const double)> func, std::vector<double>& region, const int ncalls, const std::string& method)
 {
+	if(region.empty() || region.size() % 2 != 0)
+	{
+		std::cerr << "Error in libphysica::Integrate_MC(): The region must list the lower and the upper corner of a box, not " << region.size() << " numbers." << std::endl;
+		std::exit(EXIT_FAILURE);
+	}
+	if(ncalls < 1 || (method == "Vegas" && ncalls < 2))
+	{
+		std::cerr << "Error in libphysica::Integrate_MC(): The number of function calls (" << ncalls << ") is too small." << std::endl;
+		std::exit(EXIT_FAILURE);
+	}
 	if(method == "Monte-Carlo")
 		return Integrate_MC_Brute_Force(func, region, ncalls);
 	else if(method == "Vegas")
